@@ -1,15 +1,19 @@
 #!/bin/bash
 # Re-runs every seeded change against the quick check of its property (applies the patch to /repo, runs, reverts).
-cd /verif
-for d in seeded/*/; do
+# usage: [VERIF_REPO=<checkout of dsdobjects>] tools/run_seeded.sh [id-glob]     (default: /repo, every seeded change)
+cd "$(dirname "$0")/.."
+V=$(pwd)
+REPO=${VERIF_REPO:-/repo}
+T=$V/.seeded_tmp; mkdir -p $T
+for d in seeded/${1:-*}/; do
   id=$(basename $d); prop=${id%%-*}
   if grep -q '"status": "obsolete-after-fix"' $d/meta.json 2>/dev/null; then echo "$id obsolete-after-fix (skipped)"; continue; fi
-  git -C /repo apply /verif/$d/patch.diff || { echo "$id PATCH-FAILS"; continue; }
-  cp evidence/$prop.json /tmp/evidence_$prop.bak 2>/dev/null   # the evidence of the unchanged tree must survive this run
-  timeout 1800 ./check $prop --tier quick > /tmp/seeded_$id.log 2>&1; rc=$?
-  git -C /repo checkout -- .
-  cp /tmp/evidence_$prop.bak evidence/$prop.json 2>/dev/null
-  kind=$(grep -m1 "^VIOLATION" /tmp/seeded_$id.log | sed 's/.*replay=//')
+  git -C $REPO apply $V/$d/patch.diff || { echo "$id PATCH-FAILS"; continue; }
+  cp evidence/$prop.json $T/evidence_$prop.bak 2>/dev/null   # the evidence of the unchanged tree must survive this run
+  timeout 1800 ./check $prop --tier quick --repo $REPO > $T/seeded_$id.log 2>&1; rc=$?
+  git -C $REPO checkout -- .
+  cp $T/evidence_$prop.bak evidence/$prop.json 2>/dev/null
+  kind=$(grep -m1 "^VIOLATION" $T/seeded_$id.log | sed 's/.*replay=//')
   echo "$id exit=$rc $kind"
   python3 - "$d" "$rc" "$kind" <<'PY'
 import json,sys,os
